@@ -31,7 +31,7 @@ def random_code(rng, used):
             for i in range(n - 1):
                 c += rng.choice('ABCDEFGHIJKLMNOPQRSTUVWXYZabcdefghijklmnopqrstuvwxyz0123456789_')
             c = c.replace('__', '_').rstrip('_') or 'Q'
-        if c not in used and c not in ('MON', 'DEP', 'k', 't') and '__' not in c:
+        if c not in used and c not in ('MON', 'DEP', 'BOND', 'k', 't') and '__' not in c:
             used.add(c)
             return c
     return 'Z%d' % len(used)
@@ -44,7 +44,7 @@ PREFIX_CHARS = ['MEAT', 'ENERGY', 'DEMAND', 'Durables', 'Em_1', 'D', 'E', 'M', '
 def make_renaming(rng, spec, force_prefix_chars=False, case_variants=False):
     codes, ckey_map = {}, {}
     used_c = set(['EXT'])
-    used = set(['MON', 'DEP'] + list(M.DEFAULT_CODES.values()))     # every new code is distinct model-wide
+    used = set(['MON', 'DEP', 'BOND'] + list(M.DEFAULT_CODES.values()))     # every new code is distinct model-wide
     for z in spec['zones']:
         for c in z['countries']:
             if rng.random() < 0.8:
@@ -119,7 +119,7 @@ def name_mapper(base_b, other_b, prefix_only=False):
         for p in PREFIXES:
             if local.startswith(p):
                 rem = local[len(p):]
-                if role_of.get(fc) in ('GOOD', 'LAB', 'MON', 'DEP', 'SRV'):
+                if role_of.get(fc) in ('GOOD', 'LAB', 'MON', 'DEP', 'SRV', 'BOND'):
                     if rem == own_code[fc][0]:
                         return nfc + '__' + p + own_code[fc][1]
                     if rem in full:
@@ -129,7 +129,7 @@ def name_mapper(base_b, other_b, prefix_only=False):
                 else:
                     if ck is not None and rem in market_short.get(ck, {}):
                         return nfc + '__' + p + market_short[ck][rem]
-                    if rem in ('MON', 'DEP'):
+                    if rem in ('MON', 'DEP', 'BOND'):
                         return nfc + '__' + local
                     if rem in full:
                         return nfc + '__' + p + full[rem]
